@@ -127,6 +127,7 @@ class Interp:
         self.notes = []
         self.inline_recursive = inline_recursive
         self.fold_pad = False
+        self.explicit_try = False
 
     # ------------------------------------------------------------------ types
     def ty(self, frame, idx):
@@ -940,7 +941,11 @@ class Interp:
                 return []
         if isinstance(v, tuple) and v and v[0] == "okof":
             return [(s, v[1])]
-        # opaque Result: success continues, the error edge propagates (implicit)
+        # opaque Result: success continues, the error edge propagates
+        if self.explicit_try:
+            s2 = s.fork()
+            s2.events.append(("TryErr", frame.crate.span(e["sp"]), v))
+            frame.done.append((s2, "ret", ("adt", "core::result::Result", 1, ((0, ("errof", v)),))))
         s.events.append(("TryEdge", frame.crate.span(e["sp"]), v))
         return [(s, ("tryok", v))]
 
@@ -1204,7 +1209,10 @@ class Interp:
             return [(s, ("call", name, (a, b), None))]
         # ---- identity-like views
         if (krate, name) in IDENTITY_FNS and len(args) >= 1:
-            return [(s, args[0])]
+            a0 = args[0]
+            if isinstance(a0, tuple) and a0 and a0[0] == "manuallydrop" and name in ("deref", "deref_mut"):
+                return [(s, a0[1])]
+            return [(s, a0)]
         # ---- slices / raw memory
         if krate == "core" and name in ("from_raw_parts", "from_raw_parts_mut") and len(args) == 2:
             ptr, n = self.load_ref(s, args[0]), self.load_ref(s, args[1])
@@ -1264,6 +1272,7 @@ class Interp:
             tgt = args[0]
             cur = self.load_ref(s, tgt)
             n = self.load_ref(s, args[1])
+            s.events.append(("SetLen", cur[1] if (isinstance(cur, tuple) and cur and cur[0] == "vec") else None, n, sp, cur))
             if isinstance(cur, tuple) and cur and cur[0] == "vec":
                 nv = ("vec", cur[1], n, ("uninit",)) + tuple(cur[4:])
                 self.store_ref(s, tgt, nv)
@@ -1296,6 +1305,9 @@ class Interp:
                 else:
                     s.events.append(("Store", d, (), v))
             return [(s, ("tuple", ()))]
+        if krate == "core" and name == "new" and "ManuallyDrop" in dj.get("n", "") and len(args) == 1:
+            s.events.append(("ManuallyDrop", sp, self.load_ref(s, args[0])))
+            return [(s, ("manuallydrop", self.load_ref(s, args[0])))]
         if krate == "core" and name == "forget" and len(args) == 1:
             s.events.append(("Forget", sp, self.load_ref(s, args[0])))
             return [(s, ("tuple", ()))]
@@ -1325,7 +1337,7 @@ class Interp:
                 return r
         # ---- opaque
         lv = tuple(self.load_ref(s, a) for a in args)
-        s.events.append(("Call", krate, name, callee, sp, dj.get("n", "")))
+        s.events.append(("Call", krate, name, callee, sp, dj.get("n", ""), lv))
         if any(self.mentions_backend(a) for a in lv):
             s.events.append(("UnknownBackendUse", callee, sp))
         # mutation of by-reference state through &mut by unknown code: recorded as a store
